@@ -36,6 +36,7 @@ def build():
 def setup():
     build()
     build_conf_fuzz()
+    build_conf_enum()
 
 
 def hx(s):
@@ -1016,6 +1017,77 @@ def build_conf_fuzz():
     return os.path.join(vc.cached_build("conffuzz", vc.repo_sources() + [hsrc], vc.DEFS, b), "conf_fuzz")
 
 
+def build_conf_enum():
+    hsrc = vc.harness_path("confh.c")
+
+    def b(out):
+        srcs = [os.path.join(vc.REPO, "src", x) for x in ("config.c", "set.c", "common.c", "bitset.c")]
+        vc._run(["gcc", "-DCONFH_FUZZ", "-DCONFH_ENUM"] + vc.SAN + vc.DEFS + vc.inc_flags() + ["-w", hsrc] + srcs
+                + ["-levent", "-o", os.path.join(out, "conf_enum")])
+    return os.path.join(vc.cached_build("confenum", vc.repo_sources() + [hsrc], vc.DEFS, b), "conf_enum")
+
+
+def run_enum(tier, root, out):
+    """Exhaustive crash-point enumeration (DESIGN 7, C14): every prefix, single-bit flip, single-byte deletion and
+    grammar-token insertion at every position of every corpus file, on top of each of the 4 built-in prior states."""
+    binary = build_conf_enum()
+    d = os.path.join(root, "enum")
+    os.makedirs(d, exist_ok=True)
+    paths = []
+    total = 0
+    for j, txt in enumerate(corpus_files()):
+        if tier == "quick" and len(txt) > 1500:
+            continue          # the 3.5 KB example file is enumerated in the thorough tier only
+        fp = os.path.join(d, "corp%d.conf" % j)
+        with open(fp, "wb") as fh:
+            fh.write(txt.encode("latin-1"))
+        paths.append(fp)
+        total += len(txt)
+    env = dict(os.environ)
+    env["ASAN_OPTIONS"] = "detect_leaks=0:abort_on_error=0"
+    procs = []
+    for i in range(vc.NCPU):
+        sd = os.path.join(d, "s%d" % i)
+        os.makedirs(sd)
+        procs.append((i, sd, subprocess.Popen([binary, str(i), str(vc.NCPU), sd] + paths, stdout=subprocess.PIPE, stderr=subprocess.PIPE, env=env)))
+    n = 0
+    ok = True
+    kinds = {}
+    for i, sd, pr in procs:
+        o, e = pr.communicate()
+        o = o.decode("latin-1")
+        e = e.decode("latin-1")
+        got = False
+        for ln in o.splitlines():
+            if ln.startswith("ENUM "):
+                got = True
+                for kv in ln.split()[1:]:
+                    k, v = kv.split("=")
+                    kinds[k] = kinds.get(k, 0) + int(v)
+        fail = os.path.join(sd, "enum-fail-%d.bin" % i)
+        if os.path.exists(fail):
+            ok = False
+            with open(fail, "rb") as fh:
+                data = fh.read()
+            msg = "enumerated candidate"
+            for ln in e.splitlines():
+                if "ERROR: AddressSanitizer" in ln or "runtime error" in ln or "ORACLE-FAIL" in ln:
+                    msg = ln.strip()[:300]
+                    break
+            sig = "failed_load_changed_tree" if "configuration changed" in msg else ("failed_load_notified" if "hooks ran" in msg else "memory_error")
+            out["fails"].append({"case": {"mode": "fuzz", "input_hex": data.hex()}, "sig": sig, "msg": msg})
+        elif not got or pr.returncode != 0:
+            raise vc.MachineryError("conf_enum shard %d ended with status %s and no failing input: %s" % (i, pr.returncode, e[-500:]))
+    n = kinds.pop("cases", 0)
+    out["evaluations"] += n
+    out["nontrivial"] += kinds.get("rejected", 0)
+    for k, v in kinds.items():
+        out["classes"]["crashpoint_" + k] = v
+    out["exhaustive_scope"] = ("every byte prefix, single-bit flip, single-byte deletion and insertion of each of 16 grammar tokens at every "
+                               "position of %d corpus files (%d bytes) x 4 prior states: %d candidates%s" %
+                               (len(paths), total, n, "" if ok else " (stopped at a failure)"))
+
+
 def run_fuzz_input(binary, data, workdir):
     os.makedirs(workdir, exist_ok=True)
     f = os.path.join(workdir, "input.bin")
@@ -1083,6 +1155,7 @@ def extra_phase(pid, tier, seed):
             sig = "failed_load_changed_tree" if "configuration changed" in msg else ("failed_load_notified" if "hooks ran" in msg else "memory_error")
             out["fails"].append({"case": {"mode": "fuzz", "input_hex": data.hex()}, "sig": sig, "msg": msg})
     out["classes"]["libfuzzer_executions"] = out["evaluations"]
+    run_enum(tier, root, out)
     shutil.rmtree(root, ignore_errors=True)
     return out
 
